@@ -79,6 +79,12 @@ def cases(chk):
     yield "zero", {"chunks": ["000000", "000000", "000001", "09"]}
     yield "zero", {"chunks": ["00000000000107"]}
     yield "disabled", {"chunks": ["000001", "07", "-"]}
+    EVS = ["org.openwhatsapp.yowsup.event.network.connect", "org.openwhatsapp.yowsup.event.auth.authed", "org.openwhatsapp.yowsup.event.network.connected", "com.example.app.event"]
+    for i in range(chk.scale(40, 800)):
+        frames = [bytes(r.randrange(256) for _ in range(r.choice([1, 2, 5, 40, 300]))).hex() for _i in range(r.randint(2, 4))]
+        total = sum(3 + len(f) // 2 for f in frames)
+        cuts = sorted(set(r.randint(1, total - 1) for _ in range(r.choice([1, 2, 3, 5]))))
+        yield "midevents", {"frames": frames, "cuts": cuts, "events": [[r.randrange(len(cuts) + 1), EVS[(i + j) % len(EVS)]] for j in range(r.choice([1, 1, 2]))]}
     for i in range(chk.scale(30, 600)):
         raw = [bytes(r.randrange(256) for _ in range(r.choice([1, 1, 2, 3, 4, 33]))).hex() for _i in range(r.choice([1, 1, 2, 3]))]
         frames = [bytes(r.randrange(256) for _ in range(r.choice([1, 2, 5, 40, 300]))).hex() for _i in range(r.randint(1, 4))]
@@ -381,6 +387,26 @@ def run_case(chk, stream, case):
         chunks = [bytes.fromhex(c) if c != "-" else b"" for c in case["chunks"]]
         _feed(chk, layer, top, chunks, fails, stream)
         chk.hit(stream)
+    elif stream == "midevents":
+        # events that do not end the connection travel through the stack while a frame is half received (a redundant connect request that the
+        # network layer ignores because it is connected, the login's authed event, an application event): framing goes on as if nothing happened
+        from yowsup.layers import YowLayerEvent
+        frames = [bytes.fromhex(f) for f in case["frames"]]
+        data = b"".join(be24(len(f)) + f for f in frames)
+        cuts = [c for c in case["cuts"] if 0 < c < len(data)]
+        layer, stack_, _bottom, top = _mk(True)
+        chk.driver.ask("seg reset 1")
+        chunks = _chunks(data, cuts)
+        delivered = []
+        for i, c in enumerate(chunks):
+            delivered += _feed(chk, layer, top, [c], fails, "midevents")
+            for at, name in case["events"]:
+                if at == i:
+                    chk.hit("midevents:" + name.rsplit(".", 1)[-1])
+                    (stack_.broadcastEvent if name.endswith("connect") else stack_.emitEvent)(YowLayerEvent(name))
+        if delivered != frames:
+            fails.append(oracle("C05:recv-frames-differ", "%d frames (sizes %s) cut at %s, with events %s passing through the stack between chunks: delivered sizes %s"
+                                % (len(frames), [len(f) for f in frames][:8], cuts[:10], case["events"], [len(d) for d in delivered][:8])))
     elif stream == "switch":
         # the way a login uses the layer: framing off while the raw preamble travels (whatever arrives then goes up as it is), then framing on
         # for the rest of the same connection: the frames that follow are delivered exactly, whatever was seen before the switch
